@@ -11,6 +11,7 @@ CONSTANTS
  MaxDevStop = 0
  MaxFail = 0
  MaxSteps = 70
+ LiveMC = FALSE
  MaxNoop = 0
  OutOfOrderRb = FALSE
 INIT MCInit
